@@ -1,0 +1,368 @@
+//! Verification-build primitives (`--cfg excsn_fibre_verif`): the std /
+//! parking_lot types of `real.rs` behind thin wrappers that announce every
+//! shared-memory step, spin, park and unpark to `crate::verif` first. For a
+//! thread without a controller each hook is a thread-local load, after which
+//! the wrapped std operation runs unchanged. Keep the export list in lockstep
+//! with `real.rs`.
+
+pub(crate) use std::sync::atomic::Ordering;
+use std::sync::atomic as sa;
+
+#[inline]
+#[track_caller]
+pub(crate) fn fence(order: Ordering) {
+  crate::verif::point("fence", 0);
+  sa::fence(order);
+}
+
+macro_rules! verif_atomic_common {
+  ($name:ident, $std:ty, $val:ty) => {
+    #[repr(transparent)]
+    #[derive(Default)]
+    pub(crate) struct $name($std);
+
+    impl std::fmt::Debug for $name {
+      fn fmt(&self, f: &mut std::fmt::Formatter<'_>) -> std::fmt::Result {
+        self.0.fmt(f)
+      }
+    }
+
+    #[allow(dead_code)]
+    impl $name {
+      #[inline]
+      pub(crate) const fn new(v: $val) -> Self {
+        Self(<$std>::new(v))
+      }
+      #[inline]
+      fn addr(&self) -> usize {
+        self as *const Self as usize
+      }
+      #[inline]
+      pub(crate) fn get_mut(&mut self) -> &mut $val {
+        self.0.get_mut()
+      }
+      #[inline]
+      pub(crate) fn into_inner(self) -> $val {
+        self.0.into_inner()
+      }
+      #[inline]
+      #[track_caller]
+      pub(crate) fn load(&self, o: Ordering) -> $val {
+        crate::verif::point("load", self.addr());
+        self.0.load(o)
+      }
+      #[inline]
+      #[track_caller]
+      pub(crate) fn store(&self, v: $val, o: Ordering) {
+        crate::verif::point("store", self.addr());
+        self.0.store(v, o)
+      }
+      #[inline]
+      #[track_caller]
+      pub(crate) fn swap(&self, v: $val, o: Ordering) -> $val {
+        crate::verif::point("swap", self.addr());
+        self.0.swap(v, o)
+      }
+      #[inline]
+      #[track_caller]
+      pub(crate) fn compare_exchange(
+        &self,
+        cur: $val,
+        new: $val,
+        s: Ordering,
+        f: Ordering,
+      ) -> Result<$val, $val> {
+        crate::verif::point("cas", self.addr());
+        self.0.compare_exchange(cur, new, s, f)
+      }
+      #[inline]
+      #[track_caller]
+      pub(crate) fn compare_exchange_weak(
+        &self,
+        cur: $val,
+        new: $val,
+        s: Ordering,
+        f: Ordering,
+      ) -> Result<$val, $val> {
+        crate::verif::point("cas_weak", self.addr());
+        if crate::verif::weak_cas_fails() {
+          let seen = self.0.load(f);
+          if seen == cur {
+            return Err(seen);
+          }
+        }
+        self.0.compare_exchange_weak(cur, new, s, f)
+      }
+    }
+  };
+}
+
+macro_rules! verif_atomic_int {
+  ($name:ident, $std:ty, $val:ty) => {
+    verif_atomic_common!($name, $std, $val);
+
+    #[allow(dead_code)]
+    impl $name {
+      #[inline]
+      #[track_caller]
+      pub(crate) fn fetch_add(&self, v: $val, o: Ordering) -> $val {
+        crate::verif::point("fetch_add", self.addr());
+        self.0.fetch_add(v, o)
+      }
+      #[inline]
+      #[track_caller]
+      pub(crate) fn fetch_sub(&self, v: $val, o: Ordering) -> $val {
+        crate::verif::point("fetch_sub", self.addr());
+        self.0.fetch_sub(v, o)
+      }
+      #[inline]
+      #[track_caller]
+      pub(crate) fn fetch_or(&self, v: $val, o: Ordering) -> $val {
+        crate::verif::point("fetch_or", self.addr());
+        self.0.fetch_or(v, o)
+      }
+      #[inline]
+      #[track_caller]
+      pub(crate) fn fetch_and(&self, v: $val, o: Ordering) -> $val {
+        crate::verif::point("fetch_and", self.addr());
+        self.0.fetch_and(v, o)
+      }
+      #[inline]
+      #[track_caller]
+      pub(crate) fn fetch_max(&self, v: $val, o: Ordering) -> $val {
+        crate::verif::point("fetch_max", self.addr());
+        self.0.fetch_max(v, o)
+      }
+      #[inline]
+      #[track_caller]
+      pub(crate) fn fetch_min(&self, v: $val, o: Ordering) -> $val {
+        crate::verif::point("fetch_min", self.addr());
+        self.0.fetch_min(v, o)
+      }
+    }
+  };
+}
+
+verif_atomic_int!(AtomicU8, sa::AtomicU8, u8);
+verif_atomic_int!(AtomicU32, sa::AtomicU32, u32);
+verif_atomic_int!(AtomicU64, sa::AtomicU64, u64);
+verif_atomic_int!(AtomicUsize, sa::AtomicUsize, usize);
+verif_atomic_common!(AtomicBool, sa::AtomicBool, bool);
+
+#[allow(dead_code)]
+impl AtomicBool {
+  #[inline]
+  #[track_caller]
+  pub(crate) fn fetch_or(&self, v: bool, o: Ordering) -> bool {
+    crate::verif::point("fetch_or", self.addr());
+    self.0.fetch_or(v, o)
+  }
+  #[inline]
+  #[track_caller]
+  pub(crate) fn fetch_and(&self, v: bool, o: Ordering) -> bool {
+    crate::verif::point("fetch_and", self.addr());
+    self.0.fetch_and(v, o)
+  }
+}
+
+#[repr(transparent)]
+pub(crate) struct AtomicPtr<T>(sa::AtomicPtr<T>);
+
+impl<T> Default for AtomicPtr<T> {
+  fn default() -> Self {
+    Self(sa::AtomicPtr::default())
+  }
+}
+
+impl<T> std::fmt::Debug for AtomicPtr<T> {
+  fn fmt(&self, f: &mut std::fmt::Formatter<'_>) -> std::fmt::Result {
+    self.0.fmt(f)
+  }
+}
+
+#[allow(dead_code)]
+impl<T> AtomicPtr<T> {
+  #[inline]
+  pub(crate) const fn new(p: *mut T) -> Self {
+    Self(sa::AtomicPtr::new(p))
+  }
+  #[inline]
+  fn addr(&self) -> usize {
+    self as *const Self as usize
+  }
+  #[inline]
+  pub(crate) fn get_mut(&mut self) -> &mut *mut T {
+    self.0.get_mut()
+  }
+  #[inline]
+  pub(crate) fn into_inner(self) -> *mut T {
+    self.0.into_inner()
+  }
+  #[inline]
+  #[track_caller]
+  pub(crate) fn load(&self, o: Ordering) -> *mut T {
+    crate::verif::point("load", self.addr());
+    self.0.load(o)
+  }
+  #[inline]
+  #[track_caller]
+  pub(crate) fn store(&self, v: *mut T, o: Ordering) {
+    crate::verif::point("store", self.addr());
+    self.0.store(v, o)
+  }
+  #[inline]
+  #[track_caller]
+  pub(crate) fn swap(&self, v: *mut T, o: Ordering) -> *mut T {
+    crate::verif::point("swap", self.addr());
+    self.0.swap(v, o)
+  }
+  #[inline]
+  #[track_caller]
+  pub(crate) fn compare_exchange(
+    &self,
+    cur: *mut T,
+    new: *mut T,
+    s: Ordering,
+    f: Ordering,
+  ) -> Result<*mut T, *mut T> {
+    crate::verif::point("cas", self.addr());
+    self.0.compare_exchange(cur, new, s, f)
+  }
+  #[inline]
+  #[track_caller]
+  pub(crate) fn compare_exchange_weak(
+    &self,
+    cur: *mut T,
+    new: *mut T,
+    s: Ordering,
+    f: Ordering,
+  ) -> Result<*mut T, *mut T> {
+    crate::verif::point("cas_weak", self.addr());
+    if crate::verif::weak_cas_fails() {
+      let seen = self.0.load(f);
+      if seen == cur {
+        return Err(seen);
+      }
+    }
+    self.0.compare_exchange_weak(cur, new, s, f)
+  }
+}
+
+pub(crate) mod hint {
+  #[allow(unused_imports)]
+  pub use std::hint::*;
+
+  /// A spin-wait iteration: lets the controller run somebody else.
+  #[inline]
+  #[track_caller]
+  pub fn spin_loop() {
+    crate::verif::spin();
+    std::hint::spin_loop();
+  }
+}
+
+pub(crate) const IS_LOOM: bool = false;
+
+pub(crate) use std::sync::Arc;
+
+pub(crate) use self::thread::Thread;
+
+pub(crate) mod thread {
+  #[allow(unused_imports)]
+  pub use std::thread::*;
+  use std::time::Duration;
+
+  /// `std::thread::Thread` whose `unpark` is announced to the controller.
+  #[derive(Clone, Debug)]
+  pub struct Thread(std::thread::Thread);
+
+  #[allow(dead_code)]
+  impl Thread {
+    #[inline]
+    pub fn unpark(&self) {
+      crate::verif::on_unpark(self.0.id());
+      self.0.unpark();
+    }
+    #[inline]
+    pub fn id(&self) -> std::thread::ThreadId {
+      self.0.id()
+    }
+    #[inline]
+    pub fn name(&self) -> Option<&str> {
+      self.0.name()
+    }
+  }
+
+  #[inline]
+  pub fn current() -> Thread {
+    Thread(std::thread::current())
+  }
+
+  #[inline]
+  #[track_caller]
+  pub fn park() {
+    if !crate::verif::park(None) {
+      std::thread::park();
+    }
+  }
+
+  #[inline]
+  #[track_caller]
+  pub fn park_timeout(d: Duration) {
+    if !crate::verif::park(Some(d)) {
+      std::thread::park_timeout(d);
+    }
+  }
+
+  #[inline]
+  #[track_caller]
+  pub fn yield_now() {
+    crate::verif::spin();
+    std::thread::yield_now();
+  }
+}
+
+/// parking_lot `Mutex` whose acquisition is a step: a managed thread never
+/// blocks in the OS on a lock held by a thread the controller has paused.
+#[derive(Debug, Default)]
+pub(crate) struct Mutex<T>(parking_lot::Mutex<T>);
+
+#[allow(dead_code)]
+impl<T> Mutex<T> {
+  #[inline]
+  pub(crate) const fn new(value: T) -> Self {
+    Self(parking_lot::Mutex::new(value))
+  }
+
+  #[inline]
+  #[track_caller]
+  pub(crate) fn lock(&self) -> parking_lot::MutexGuard<'_, T> {
+    if crate::verif::is_managed() {
+      crate::verif::point("lock", self as *const Self as usize);
+      loop {
+        if let Some(g) = self.0.try_lock() {
+          return g;
+        }
+        crate::verif::spin();
+      }
+    }
+    self.0.lock()
+  }
+
+  #[inline]
+  #[track_caller]
+  pub(crate) fn try_lock(&self) -> Option<parking_lot::MutexGuard<'_, T>> {
+    crate::verif::point("try_lock", self as *const Self as usize);
+    self.0.try_lock()
+  }
+
+  #[inline]
+  pub(crate) fn get_mut(&mut self) -> &mut T {
+    self.0.get_mut()
+  }
+
+  #[inline]
+  pub(crate) fn into_inner(self) -> T {
+    self.0.into_inner()
+  }
+}
